@@ -39,3 +39,47 @@ instance : BEq J := ⟨beq⟩
 
 end J
 end WfModel
+
+namespace WfModel
+namespace J
+
+def hexDigitLower (n : Nat) : Char :=
+  if n < 10 then Char.ofNat (48 + n) else Char.ofNat (87 + n)
+
+/-- serde_json's string escaping (`format_escaped_str_contents`) -/
+def escapeChar (c : Char) : List Char :=
+  if c = '"' then ['\\', '"']
+  else if c = '\\' then ['\\', '\\']
+  else if c.toNat = 8 then ['\\', 'b']
+  else if c.toNat = 12 then ['\\', 'f']
+  else if c = '\n' then ['\\', 'n']
+  else if c = '\r' then ['\\', 'r']
+  else if c = '\t' then ['\\', 't']
+  else if c.toNat < 32 then ['\\', 'u', '0', '0', hexDigitLower (c.toNat / 16), hexDigitLower (c.toNat % 16)]
+  else [c]
+
+def renderStr (s : String) : List Char := '"' :: (s.toList.flatMap escapeChar ++ ['"'])
+
+mutual
+/-- serde_json compact writer -/
+def renderChars : J → List Char
+  | null => "null".toList
+  | bool b => (if b then "true" else "false").toList
+  | int i => (toString i).toList
+  | str s => renderStr s
+  | arr xs => '[' :: (renderList xs ++ [']'])
+  | obj kvs => '{' :: (renderKvs kvs ++ ['}'])
+def renderList : List J → List Char
+  | [] => []
+  | [x] => renderChars x
+  | x :: xs => renderChars x ++ ',' :: renderList xs
+def renderKvs : List (String × J) → List Char
+  | [] => []
+  | [(k, x)] => renderStr k ++ ':' :: renderChars x
+  | (k, x) :: xs => renderStr k ++ ':' :: renderChars x ++ ',' :: renderKvs xs
+end
+
+def render (j : J) : String := String.ofList (renderChars j)
+
+end J
+end WfModel
